@@ -370,6 +370,20 @@ static int32 fragmentHSMessage(ssl_t *ssl, unsigned char *msg, int32 msgLen,
         secureOverhead += AEAD_TAG_LEN(ssl) + AEAD_NONCE_LEN(ssl);
     }
 
+    /* The flight buffer was sized for at most MAX_FRAGMENTS fragments of
+       this message (sslEncode.c), and a peer built from this library
+       cannot reassemble more: refuse instead of writing behind the
+       buffer. */
+    fragLen = ssl->pmtu - overhead - secureOverhead;
+    if (fragLen <= 0 ||
+        (msgLen + fragLen - 1) / fragLen > MAX_FRAGMENTS)
+    {
+        psTraceIntDtls("Message needs more than %d fragments at this PMTU\n",
+            MAX_FRAGMENTS);
+        ssl->err = SSL_ALERT_INTERNAL_ERROR;
+        return PS_LIMIT_FAIL;
+    }
+
     while (tmpLen > 0)
     {
         if (tmpLen >= (ssl->pmtu - overhead - secureOverhead))
